@@ -452,8 +452,8 @@ static SA_CAPS: [u8; 4] = [2, 2, 4, 8];
 impl Property for Standalone {
     type Case = Case;
     fn part(&self) -> &'static str { "standalone-sched" }
-    fn strategy(&self, _tier: Tier) -> BoxedStrategy<Case> { case_strategy(&SA_KINDS, &SA_CAPS, 4, 4, false) }
-    fn decode(&self, u: &mut arbitrary::Unstructured<'_>) -> Option<Case> { decode_case(u, &SA_KINDS, &SA_CAPS, 4, 4, false) }
+    fn strategy(&self, _tier: Tier) -> BoxedStrategy<Case> { case_strategy(&SA_KINDS, &SA_CAPS, 4, 4, true) }
+    fn decode(&self, u: &mut arbitrary::Unstructured<'_>) -> Option<Case> { decode_case(u, &SA_KINDS, &SA_CAPS, 4, 4, true) }
     fn cases(&self, tier: Tier) -> u32 { match tier { Tier::Quick => 20_000, Tier::Thorough => 300_000 } }
     fn run(&self, case: &Case) -> RunReport { report(case) }
     fn rule(&self) -> String {
